@@ -527,14 +527,15 @@ theorem gen_dotprops_drop_kdtree : ∀ f ∈ Gen.Units.opFacts, f.cls = "Dotprop
 /-- **gen_add_units.** In the current source the `add_units` wrapper multiplies the raw value by
 `np.power(self.units, power)` — the *quantity* (magnitude included), not the bare unit —, only for neurons with
 non-dimensionless units, and compacts under `if compact:`; the decorated properties carry the power of their
-dimension: cable length 1, surface area 2, volumes 3. -/
+dimension: cable length 1, surface area 2, volumes 3.  `VoxelNeuron.volume` returns a quantity by itself and is *not*
+decorated (since navis afa4901; before, the units were applied twice: length⁶). -/
 theorem gen_add_units :
     Gen.Units.addUnitsFactor = "np.power(self.units, power)" ∧
     Gen.Units.addUnitsGuard = "config.add_units and self.has_units and (not self.units.dimensionless)" ∧
     Gen.Units.addUnitsCompactsWhenAsked = true ∧
     addUnitsPower "TreeNeuron" "cable_length" = some 1 ∧ addUnitsPower "TreeNeuron" "surface_area" = some 2 ∧
     addUnitsPower "TreeNeuron" "volume" = some 3 ∧ addUnitsPower "MeshNeuron" "volume" = some 3 ∧
-    addUnitsPower "VoxelNeuron" "volume" = some 3 := by decide
+    addUnitsPower "VoxelNeuron" "volume" = none := by decide
 
 /-- **add_units_scale_invariant.** A quantity of dimension length^`d` (its raw value scales with `k^d` when the
 coordinates are multiplied / divided by a number `k ≠ 0`) is reported by an `@add_units(power=d)` property as the same
@@ -543,6 +544,39 @@ theorem add_units_scale_invariant {n m : Neuron} {k : Rat} {p : Int} (hk : n.kin
     (mul n (.s k) p = some m → addUnitsPhys d m.units (raw * k ^ d) = addUnitsPhys d n.units raw) ∧
     (div n (.s k) p = some m → addUnitsPhys d m.units (raw / k ^ d) = addUnitsPhys d n.units raw) :=
   ⟨fun h => addUnitsPhys_mul hk h d raw, fun h => addUnitsPhys_div hk h d raw⟩
+
+/-
+History: up to navis 3dcd5b6 `VoxelNeuron.volume` multiplied the voxel count by `units_xyz[0] * units_xyz[2] * units_xyz[2]`
+(y ignored, z twice) and was additionally wrapped in `@add_units(power=3)` although it already returns a quantity (length⁶
+with `config.add_units = True`).  Repaired in navis b141c1f and afa4901; the generated facts follow the repaired source.
+-/
+
+/-- **voxel_volume_spec.** With the axes the current source multiplies (`[0, 1, 2]`, each once) the volume of a
+VoxelNeuron is `nnz · ux · uy · uz` in metres³ — per-axis voxel sizes included —, the property carries exactly three
+powers of length and is independent of `config.add_units` (it is not an `add_units` site). -/
+theorem voxel_volume_spec (u : Units) (nnz : Nat) :
+    Gen.Units.voxelVolumeAxes = [0, 1, 2] ∧ Gen.Units.voxelVolumeCount = "self.nnz" ∧
+    voxelVolume u nnz = (nnz : Rat) * u.phys.x * u.phys.y * u.phys.z ∧
+    addUnitsPower "VoxelNeuron" "volume" = none := by
+  refine ⟨by decide, by decide, ?_, by decide⟩
+  simp [voxelVolume, voxelVolumeBy, Gen.Units.voxelVolumeAxes, V3.axis]
+
+/-- `x * k` on a VoxelNeuron (which scales the voxel size, see `voxel_scale_world`) multiplies the volume by `k³`. -/
+theorem voxel_volume_scales {n m : Neuron} {k : Rat} {p : Int} (hk : n.kind = .voxel) (h : mul n (.s k) p = some m)
+    (nnz : Nat) : voxelVolume m.units nnz = k ^ 3 * voxelVolume n.units nnz := by
+  obtain ⟨_, rfl⟩ := mul_voxel hk h
+  simp [voxelVolume, voxelVolumeBy, Gen.Units.voxelVolumeAxes, V3.axis, Units.phys, V3.mul, V3.rep, Factor.xyz]
+  ring
+
+/-- the checker the driver evaluates on the reported voxel volume is exact at tolerance 0 -/
+theorem voxelVolumeB_sound (u : Units) (nnz dim : Nat) (q : Rat) :
+    voxelVolumeB 0 u nnz dim q = true ↔ dim = 3 ∧ q = (nnz : Rat) * u.phys.x * u.phys.y * u.phys.z := by
+  unfold voxelVolumeB
+  rw [(voxel_volume_spec u nnz).2.2.1]
+  simp [relClose_zero, Gen.Units.voxelVolumeAxes]
+
+-- one voxel of `(4, 8, 40) nm`: 1280 nm³ (was 6400 with x·z·z)
+example : voxelVolume ⟨⟨4, 8, 40⟩, .metre (-9)⟩ 1 = 1280 * pow10 (-9) ^ 3 := by decide +kernel
 
 /-- the checker the driver evaluates on the reported quantity (converted to base units by pint) is exact at tolerance 0 -/
 theorem addUnitsB_sound (d : Nat) (u : Units) (raw : Rat) (q : V3) :
